@@ -75,6 +75,13 @@ def main():
     if rc != 0:
         print("cannot apply to /repo:", o[-300:])
         return 2
+    # the evidence files under /verif/evidence must come from runs against /repo itself: keep them aside while the
+    # changed tree is checked and put them back afterwards
+    saved_ev = {}
+    for c in checks:
+        ep = os.path.join(VERIF, "evidence", c + ".json")
+        if os.path.exists(ep):
+            saved_ev[ep] = open(ep).read()
     try:
         for c in checks:
             t0 = time.time()
@@ -98,6 +105,8 @@ def main():
                         if os.path.exists(pth):
                             shutil.copy(pth, dst)
     finally:
+        for ep, txt in saved_ev.items():
+            open(ep, "w").write(txt)
         sh("git -C /repo checkout -- .")
         rc, st = sh("git -C /repo status --porcelain")
         if st.strip():
